@@ -164,13 +164,13 @@ def harnesses(ctx) -> List[H]:
     ex_e = ctx.excl("C12-empty-name-source", "len(s) > 0")
     # ---- attribute names: validity
     hs.append(mk("c12_attr_valid_alnum1", "s: str", ["len(s) <= 1", "all(c.isalnum() or c in '_- ' for c in s)"] + ex_a,
-                 "return attr_valid(s, 5)", timeout=900, tier=T, expect="unknown", group="attr", covers="one alphanumeric/underscore/hyphen/space character (all of Unicode)"))
+                 "return attr_valid(s, 5)", timeout=600, tier=T, expect="unknown", group="attr", covers="one alphanumeric/underscore/hyphen/space character (all of Unicode)"))
     hs.append(mk("c12_attr_valid_alnum1_ctx", "s: str", ["len(s) == 1", "s.isalnum() or s in '_- '"] + ex_a,
-                 "return attr_valid('x' + s + 'y', 4)", timeout=600, tier=T, group="attr", covers="one alphanumeric/underscore/hyphen/space character between letters"))
+                 "return attr_valid('x' + s + 'y', 4)", timeout=400, tier=T, expect="unknown", group="attr", covers="one alphanumeric/underscore/hyphen/space character between letters"))
     hs.append(mk("c12_attr_valid_alnum2", "s: str", ["len(s) == 2", "all(c.isalnum() or c in '_- ' for c in s)"] + ex_a,
-                 "return attr_valid(s, 4)", timeout=1200, tier=T, group="attr", covers="names of alphanumerics/underscore/hyphen/space (all of Unicode), 2 chars"))
+                 "return attr_valid(s, 4)", timeout=600, tier=T, expect="unknown", group="attr", covers="names of alphanumerics/underscore/hyphen/space (all of Unicode), 2 chars"))
     hs.append(mk("c12_attr_valid_alnum3", "s: str", ["len(s) == 3", "all(c.isalnum() or c in '_- ' for c in s)"] + ex_a,
-                 "return attr_valid(s, 5)", timeout=1200, tier=T, group="attr", expect="unknown", covers="same, exactly 3 chars"))
+                 "return attr_valid(s, 5)", timeout=600, tier=T, group="attr", expect="unknown", covers="same, exactly 3 chars"))
     hs.append(mk("c12_attr_valid_ascii1", "s: str", ["len(s) == 1", "ord(s[0]) < 128"], "return attr_valid(s)", timeout=300, group="attr",
                  covers="every single ASCII character (symbols are enumerated through unicodedata.name realisation)"))
     hs.append(mk("c12_attr_valid_wrapped", "s: str", ["len(s) == 1", "ord(s[0]) < 128"],
@@ -200,12 +200,12 @@ def harnesses(ctx) -> List[H]:
     hs.append(mk("c12_attr_injective_ascii1", "s1: str, s2: str", dom1, "return attr_distinct(s1, s2)", timeout=1500, group="siblings", tier=T,
                  covers="two different single ASCII characters never map to the same attribute" + (" (outside the known separator/unnamed collision classes)" if ex_c else "")))
     hs.append(mk("c12_attr_injective_letters1", "s1: str, s2: str", ["len(s1) == 1", "len(s2) == 1", "s1 != s2", "all(c.isalpha() for c in s1 + s2)"] + [x.replace(" s)", " s1 + s2)") for x in ex_a],
-                 "return attr_distinct(s1, s2)", timeout=900, tier=T, expect="unknown", group="siblings", covers="single alphabetic characters (all of Unicode) stay distinct"))
+                 "return attr_distinct(s1, s2)", timeout=600, tier=T, expect="unknown", group="siblings", covers="single alphabetic characters (all of Unicode) stay distinct"))
     hs.append(mk("c12_attr_injective_ascii_alnum", "s1: str, s2: str", ["1 <= len(s1) <= 2", "1 <= len(s2) <= 2", "s1 != s2", "all(c.isascii() and c.isalnum() for c in s1 + s2)"],
                  "return attr_distinct(s1, s2)" if not ex_c else "return attr_distinct(s1, s2) or (s1[:1].isdigit() != s2[:1].isdigit())", timeout=300, group="siblings",
                  covers="ASCII alphanumeric names up to 2 chars stay distinct"))
     hs.append(mk("c12_attr_injective_letters2", "s1: str, s2: str", ["1 <= len(s1) <= 2", "1 <= len(s2) <= 2", "s1 != s2", "all(c.isalpha() for c in s1 + s2)"] + [x.replace(" s)", " s1 + s2)") for x in ex_a],
-                 "return attr_distinct(s1, s2)", timeout=1200, tier=T, expect="unknown", group="siblings", covers="alphabetic names (all of Unicode, <= 2 chars) stay distinct"))
+                 "return attr_distinct(s1, s2)", timeout=600, tier=T, expect="unknown", group="siblings", covers="alphabetic names (all of Unicode, <= 2 chars) stay distinct"))
     hs.append(mk("c12_attr_injective_reserved", "i: int, s2: str", ["0 <= i < 200", "len(s2) <= 1", "all(c.isalpha() or c == '_' for c in s2)"],
                  "names = sorted(set(RESERVED_PROPERTIES))\nn = names[i % len(names)]\nreturn n + s2 == n or n + s2 == n + '_' or attr_distinct(n, n + s2)" if ex_c else
                  "names = sorted(set(RESERVED_PROPERTIES))\nn = names[i % len(names)]\nreturn n + s2 == n or attr_distinct(n, n + s2)",
@@ -220,11 +220,11 @@ def harnesses(ctx) -> List[H]:
                  covers="class name is a non-empty identifier, no keyword, no imported/used name (one arbitrary code point)"))
     hs.append(mk("c12_title_valid_context", "t: str", ["len(t) == 1", "ord(t[0]) < 128"], "return title_valid('ab' + t + 'cd')", timeout=300, group="title",
                  covers="every ASCII character inside a longer title"))
-    hs.append(mk("c12_title_valid2", "t: str", ["len(t) == 2"] + ex_t + ex_u, "return title_valid(t)", timeout=1200, group="title", tier=T,
+    hs.append(mk("c12_title_valid2", "t: str", ["len(t) == 2"] + ex_t + ex_u, "return title_valid(t)", timeout=600, group="title", tier=T, expect="unknown",
                  covers="titles of exactly 2 code points"))
-    hs.append(mk("c12_title_valid3", "t: str", ["len(t) == 3"] + ex_t + ex_u, "return title_valid(t)", timeout=1500, group="title", tier=T, expect="unknown",
+    hs.append(mk("c12_title_valid3", "t: str", ["len(t) == 3"] + ex_t + ex_u, "return title_valid(t)", timeout=600, group="title", tier=T, expect="unknown",
                  covers="titles of exactly 3 code points"))
-    hs.append(mk("c12_title_valid_ascii4", "t: str", ["1 <= len(t) <= 4", "all(c in 'aZ1 _-' for c in t)"] + ex_t + ex_u, "return title_valid(t)", timeout=900, group="title", tier=T,
+    hs.append(mk("c12_title_valid_ascii4", "t: str", ["1 <= len(t) <= 4", "all(c in 'aZ1 _-' for c in t)"] + ex_t + ex_u, "return title_valid(t)", timeout=600, group="title", tier=T, expect="unknown",
                  covers="titles up to 4 chars over {a, Z, 1, space, underscore, hyphen}"))
     hs.append(mk("c12_title_distinct", "i: int, j: int, k: int, same12: bool, same23: bool", ["0 <= i < 4", "0 <= j < 4", "0 <= k < 4"],
                  "return titles_distinct(i, j, k, same12, same23)", timeout=600, group="title",
